@@ -48,6 +48,9 @@ def run(ctx):
              floor=1)
     run.rule("C01.R5", "type gate: unknown/abstract types refused before a "
              "child matcher is created", floor=3)
+    run.rule("C01.R7", "the implementer table is filled under 'implements' "
+             "only; the parser gives the matcher the same normalised type "
+             "and name at both ends of a section", floor=5)
     run.rule("C01.R6", "every datatype-slot call in matcher.py / info.py is "
              "wrapped: ValueError -> DataConversionError", floor=4)
 
@@ -149,6 +152,35 @@ def run(ctx):
     crosscheck(ctx, "C01.R5", "ZConfig.loader.ConfigLoader.endSection",
                "ref_loader.py", "endSection", "ZConfig.loader.ConfigLoader",
                "finish the child, then register it with the parent")
+
+    # R7: what the matcher's rules are applied to.  The implementer table
+    # an abstract slot consults is filled only under `implements` (a type
+    # that merely extends an implementer is not one); and the parser hands
+    # the matcher the same normalised type and name when a section is opened
+    # and when it is closed, in both spellings of an empty section
+    BPq = "ZConfig.schema.BaseParser"
+    crosscheck(ctx, "C01.R7", BPq + ".start_sectiontype", "ref_schema.py",
+               "start_sectiontype", BPq,
+               "implementers are registered under 'implements' only")
+    crosscheck(ctx, "C01.R7", INF + ".AbstractType.addsubtype", "ref_info.py",
+               "addsubtype", INF + ".AbstractType", "keyed by the type name")
+    crosscheck(ctx, "C01.R7", INF + ".SchemaType.deriveSectionType",
+               "ref_info.py", "deriveSectionType", INF + ".SchemaType",
+               "deriving a type registers no implementer")
+    PCq = "ZConfig.cfgparser.ZConfigParser"
+    for live, ref, what in (
+            ("start_section", "start_section", "type and name are "
+             "normalised once and used for the opener, the stack entry and "
+             "the empty form's closer alike"),
+            ("end_section", "end_section", "the closer's type is normalised "
+             "and compared with the open one"),
+            ("_normalize_case", "normalize_case", "lower-casing")):
+        lf = m.lookup_method(PCq, live)
+        if lf is None:
+            run.soft_error("anchor vanished: %s.%s" % (PCq, live))
+            continue
+        crosscheck(ctx, "C01.R7", lf.qualname, "ref_cfgparser.py", ref, PCq,
+                   what)
 
     # R6
     for fi in m.functions.values():
